@@ -150,3 +150,11 @@ package input
 
 // C16: the point operations write only the point, its index entries and run-time values
 //@ framesweep[C16] runtime.runWrites * -init
+
+// ---- the point operations: what a write stores ------------------------------------------------
+
+//@ func (*Point).Set
+//@ ensures[C11] (!old(dom(pt.Meta, key)) || old(pt.Meta[key].PtFlag) == PtField) && (dtype == ast.Int || dtype == ast.Float || dtype == ast.Bool || dtype == ast.String) ==> result == nil && dom(pt.Fields, key) && pt.Fields[key] == value && pt.Meta[key].DType == dtype && !dom(pt.Tags, key)
+//@ ensures[C11] (!old(dom(pt.Meta, key)) || old(pt.Meta[key].PtFlag) == PtField) && (dtype == ast.Nil || dtype == ast.Void || dtype == ast.Invalid) ==> result == nil && dom(pt.Fields, key) && pt.Fields[key] == nil && pt.Meta[key].DType == ast.Nil
+//@ ensures[C11] (!old(dom(pt.Meta, key)) || old(pt.Meta[key].PtFlag) == PtField) ==> dom(pt.Fields, key) && !dom(pt.Tags, key)
+
